@@ -12,7 +12,7 @@ from metapype.model import metapype_io
 
 LEVEL = "model_checking"
 ASSUMPTIONS = [
-    "histories up to depth 5 (thorough 6) with at most 10 (12) nodes alive; templates of 1-8 nodes stand for 'created directly'",
+    "histories up to depth 5 with at most 10 (thorough 12) nodes alive, thorough also depth 6 with 7 and depth 7 with 5 nodes alive; templates of 1-8 nodes stand for 'created directly'",
     "JSON import (which re-uses ids by design) is excluded, as the quantifier says",
     "prune / expand / replace-with-deletion are enabled only while the affected tree is fully registered; what they remove from the "
     "tree is judged by C15/C16 - here only the registry is judged against the tree they leave",
@@ -41,7 +41,9 @@ DOCS = {
 }
 RULE_OF = {"creator": "party", "contact": "party"}
 CAP = {"quick": 10, "thorough": 12}
-DEPTH = {"quick": 5, "thorough": 6}
+# further (depth, cap) runs of the thorough tier: narrower and deeper (depth 6 with cap 12 did not finish in 90 minutes)
+DEEPER = {"quick": [], "thorough": [(6, 7), (7, 5)]}
+DEPTH = {"quick": 5, "thorough": 5}
 
 
 def tsize(t):
@@ -549,14 +551,22 @@ def explore(tier):
     config = {"cap": CAP[tier]}
     w = World()
     acc, info = e1.bfs(expand, config, w.canon(), max_depth=DEPTH[tier], sample_every=4999)
+    deeper = []
+    for depth_, cap_ in DEEPER[tier]:
+        a_, i_ = e1.bfs(expand, {"cap": cap_}, World().canon(), max_depth=depth_, sample_every=0)
+        acc.merge(a_)
+        deeper.append({"depth": depth_, "cap": cap_, "states": i_["states"], "transitions": i_["transitions"]})
+        info["states"] += i_["states"]
+        info["transitions"] += i_["transitions"]
     acc.merge(core.merge_all(core.pmap(scale_work, scale_items(tier))))
     cov = {
         "states": info["states"], "transitions": info["transitions"],
         "traces_validated_against_impl": info["transitions"],
         "evaluations": info["transitions"], "distinct_nontrivial": info["states"],
         "exhaustive": False,
-        "cap": f"BFS cut at depth {DEPTH[tier]} with at most {CAP[tier]} nodes alive; every history below that bound is covered",
+        "cap": f"BFS cut at depth {DEPTH[tier]} with at most {CAP[tier]} nodes alive (further runs: {DEEPER[tier]} as (depth, nodes alive)); every history below those bounds is covered",
         "levels": info["levels"],
+        "further_runs": deeper,
         "outside_the_bfs": "70 000 (thorough 140 000) nodes in one process by creation, by copying a 100-node tree and by importing a "
                            "1 000-node document repeatedly: ids pairwise distinct, every node retrievable; a child replaced by one of "
                            "its own siblings for every pair of positions among 3, 4, 5 same-named children, with and without deletion",
